@@ -100,4 +100,13 @@ def appendMeasurement (c : Circuit) (general : PauliStr) (indices : List Nat) : 
   else .ok { c with cregs := c.cregs ++ [("observable_measurements", (measuredIndices indices).length)],
                     instrs := c.instrs ++ measurementInstrs general indices id c.ncl }
 
+/-- the same with an explicit `qubit_locations` (observable qubit `i` sits at circuit qubit `locs[i]`; the circuit may be wider) -/
+def appendMeasurementLoc (c : Circuit) (general : PauliStr) (indices : List Nat) (locs : Option (List Nat)) : R Circuit :=
+  match locs with
+  | none => appendMeasurement c general indices
+  | some l =>
+    if l.length != general.letters.length then .error (.value "qubit_locations has the wrong number of elements")
+    else .ok { c with cregs := c.cregs ++ [("observable_measurements", (measuredIndices indices).length)],
+                      instrs := c.instrs ++ measurementInstrs general indices (fun i => l.getD i 0) c.ncl }
+
 end CKT
